@@ -1,9 +1,591 @@
-// C16: not built yet (stub so that main.rs is already wired; replace the body, keep the two signatures).
-use crate::util::Sink;
+// C16: reported track parameters are true closest-approach parameters.
+//
+// Case lines
+//   kt <tol> <iters> <x0> <y0> <z0> <r> <phi0> <h> <pr> <pphi> <pz> <tq>     (floats: 16 hex digits of the bits)
+//        differential: observation = `ok` + bits of verif_helix_closest_t, of verif_helix_at(t) and of verif_helix_at(tq);
+//        the extracted Coq model (coq/Recon/Helix.v, glibc libm) must print the same line
+//   relk <x0> <y0> <z0> <r> <phi0> <h> <pr> <pphi> <pz>
+//        implementation alone (a TEST, not a proof): with the library's tolerance f64::EPSILON and 20
+//        iterations, t is not NaN, lies in [-pi, pi], and if strictly inside no other t of a 20001-point grid
+//        refined by golden-section search is closer by more than 1e-9 m.  Prints `holds` / `fails <detail>`.
+//   relkf-<class> <9 params>   the same oracle on inputs of a class that is known to fail (none at present)
+//   relkt <n> <r phi z>*n      through the public API: Track::try_from(cluster) -> t_inner() / t_outer() must be the
+//                              closest-approach parameters of the innermost / outermost point (same oracle, with the
+//                              tolerance and iteration count the LIBRARY passes)
+//   relkc <n> <r phi z>*n      the same, hook-free: the clusters are those cluster_spacepoints finds in the point set
+//   relkv <k> <x0 y0 z0 r phi0 h t_inner t_outer>*k     find_vertices -> every (track, t) of the primary vertex:
+//                              t is the closest-approach parameter of that track to the vertex position
+use crate::util::*;
+use crate::c14::{case_points, family, parse_floats, points_of, track_params, P3};
+use alpha_g_physics::reconstruction::{
+    cluster_spacepoints, find_vertices, verif_helix_at, verif_helix_closest_t, Cluster, Track,
+};
+use alpha_g_physics::SpacePoint;
+use std::f64::consts::PI;
+use uom::si::angle::radian;
+use uom::si::f64::{Angle, Length};
+use uom::si::length::meter;
 
-pub fn run(_tier: &str, _seed: u64, _s: &mut Sink) {}
+pub fn bits(x: f64) -> String {
+    if x.is_nan() {
+        "7ff8000000000000".to_string()
+    } else {
+        format!("{:016x}", x.to_bits())
+    }
+}
+pub fn unbits(s: &str) -> Option<f64> {
+    u64::from_str_radix(s, 16).ok().map(f64::from_bits)
+}
+pub fn spoint(r: f64, phi: f64, z: f64) -> SpacePoint {
+    SpacePoint {
+        r: Length::new::<meter>(r),
+        phi: Angle::new::<radian>(phi),
+        z: Length::new::<meter>(z),
+    }
+}
+fn at(p: [f64; 6], t: f64) -> [f64; 3] {
+    let c = verif_helix_at(p, t);
+    [c.x.get::<meter>(), c.y.get::<meter>(), c.z.get::<meter>()]
+}
 
-/// implementation observation for a case line of this module (None: not one of mine)
-pub fn observe_line(_line: &str) -> Option<String> {
+fn observe_kt(tol: f64, iters: usize, hp: [f64; 6], sp: [f64; 3], tq: f64) -> String {
+    let r = catch(move || {
+        let t = verif_helix_closest_t(hp, spoint(sp[0], sp[1], sp[2]), tol, iters);
+        let a = at(hp, t);
+        let b = at(hp, tq);
+        format!(
+            "ok {} {} {} {} {} {} {}",
+            bits(t),
+            bits(a[0]),
+            bits(a[1]),
+            bits(a[2]),
+            bits(b[0]),
+            bits(b[1]),
+            bits(b[2])
+        )
+    });
+    r.unwrap_or_else(|| "panic".to_string())
+}
+
+/// distance between the helix point at t and the space point, all through the implementation
+fn dist(hp: [f64; 6], q: [f64; 3], t: f64) -> f64 {
+    let a = at(hp, t);
+    let (dx, dy, dz) = (a[0] - q[0], a[1] - q[1], a[2] - q[2]);
+    (dx * dx + dy * dy + dz * dz).sqrt()
+}
+
+pub const GRID: usize = 20001;
+
+/// brute-force minimum of the distance over t in [-pi, pi]: dense grid, every grid local minimum refined by
+/// golden-section search.  Returns (t_best, d_best).
+pub fn brute_min(hp: [f64; 6], q: [f64; 3]) -> (f64, f64) {
+    let n = GRID;
+    let tt = |i: usize| -> f64 {
+        if i == 0 {
+            -PI
+        } else if i == n - 1 {
+            PI
+        } else {
+            -PI + 2.0 * PI * (i as f64) / ((n - 1) as f64)
+        }
+    };
+    let d: Vec<f64> = (0..n).map(|i| dist(hp, q, tt(i))).collect();
+    let mut best = (tt(0), d[0]);
+    let mut cands: Vec<usize> = Vec::new();
+    for i in 0..n {
+        if d[i] < best.1 {
+            best = (tt(i), d[i]);
+        }
+        let l = if i == 0 { f64::INFINITY } else { d[i - 1] };
+        let r = if i == n - 1 { f64::INFINITY } else { d[i + 1] };
+        if d[i] <= l && d[i] <= r {
+            cands.push(i);
+        }
+    }
+    cands.sort_by(|&a, &b| d[a].partial_cmp(&d[b]).unwrap_or(std::cmp::Ordering::Equal));
+    cands.truncate(12);
+    let g = 0.5 * (5f64.sqrt() - 1.0);
+    for &i in &cands {
+        let mut a = tt(i.saturating_sub(1));
+        let mut b = tt((i + 1).min(n - 1));
+        let mut x1 = b - g * (b - a);
+        let mut x2 = a + g * (b - a);
+        let mut f1 = dist(hp, q, x1);
+        let mut f2 = dist(hp, q, x2);
+        for _ in 0..90 {
+            if f1 < f2 {
+                b = x2;
+                x2 = x1;
+                f2 = f1;
+                x1 = b - g * (b - a);
+                f1 = dist(hp, q, x1);
+            } else {
+                a = x1;
+                x1 = x2;
+                f1 = f2;
+                x2 = a + g * (b - a);
+                f2 = dist(hp, q, x2);
+            }
+            if f1 < best.1 {
+                best = (x1, f1);
+            }
+            if f2 < best.1 {
+                best = (x2, f2);
+            }
+        }
+    }
+    best
+}
+
+/// the property oracle for a reported t, on the implementation alone
+pub fn oracle_t(hp: [f64; 6], p: SpacePoint, t: f64) -> String {
+    if t.is_nan() {
+        return "fails nan".to_string();
+    }
+    if !(t >= -PI && t <= PI) {
+        return format!("fails out-of-range t={}", bits(t));
+    }
+    if t > -PI && t < PI {
+        let q = [p.x().get::<meter>(), p.y().get::<meter>(), p.z.get::<meter>()];
+        let d_impl = dist(hp, q, t);
+        let (tb, db) = brute_min(hp, q);
+        if !(d_impl <= db + 1e-9) {
+            return format!(
+                "fails not-closest t={} d={:e} t_brute={} d_brute={:e} excess={:e}",
+                bits(t),
+                d_impl,
+                bits(tb),
+                db,
+                d_impl - db
+            );
+        }
+    }
+    "holds".to_string()
+}
+
+/// the property oracle, on the implementation alone
+pub fn oracle(hp: [f64; 6], sp: [f64; 3]) -> String {
+    let r = catch(move || {
+        let p = spoint(sp[0], sp[1], sp[2]);
+        let t = verif_helix_closest_t(hp, p, f64::EPSILON, 20);
+        oracle_t(hp, p, t)
+    });
+    r.unwrap_or_else(|| "fails panic".to_string())
+}
+
+/// helix parameters inside the quantifier of C16
+fn in_domain(hp: [f64; 6]) -> bool {
+    // exploration switch: C16_NO_DOMAIN=1 applies the oracle to every fitted helix (reported as out-of-domain observations)
+    if std::env::var_os("C16_NO_DOMAIN").is_some() {
+        return true;
+    }
+    hp[0].abs() <= 3.0 && hp[1].abs() <= 3.0 && hp[2].abs() <= 3.0 && hp[3] >= 0.03 && hp[3] <= 5.0 && hp[5].abs() <= 1e2
+}
+
+fn domain_class(hp: [f64; 6]) -> &'static str {
+    if in_domain(hp) {
+        "track"
+    } else if hp[3] < 0.0 {
+        "track-outside-domain:negative-radius"
+    } else if hp[3] > 5.0 {
+        "track-outside-domain:radius>5m"
+    } else {
+        "track-outside-domain:other"
+    }
+}
+
+/// t_inner / t_outer of one fitted cluster against its innermost / outermost point
+fn check_cluster(sps: &[SpacePoint]) -> (String, &'static str) {
+    // three_template_points: minmax_by_key(r): first minimal element, last maximal element
+    let mut first = 0;
+    let mut last = 0;
+    for (i, p) in sps.iter().enumerate() {
+        if p.r < sps[first].r {
+            first = i;
+        }
+        if p.r >= sps[last].r {
+            last = i;
+        }
+    }
+    match Track::try_from(Cluster::verif_from_points(sps.to_vec())) {
+        Err(_) => ("holds".to_string(), "noinit"),
+        Ok(tr) => {
+            let hp = tr.verif_params();
+            if !hp.iter().all(|x| x.is_finite()) {
+                return ("holds".to_string(), "nonfinite-params(C14)");
+            }
+            if !in_domain(hp) {
+                // e.g. the fit of (nearly) collinear points is a helix of enormous radius: not a helix of the
+                // quantifier of C16 (centre within +-3 m, radius 0.03-5 m, |pitch| <= 1e2 m)
+                return ("holds".to_string(), domain_class(hp));
+            }
+            for (t, p, which) in [(tr.t_inner(), sps[first], "t_inner"), (tr.t_outer(), sps[last], "t_outer")] {
+                let o = oracle_t(hp, p, t);
+                if o != "holds" {
+                    let ps: Vec<String> = hp.iter().map(|x| bits(*x)).collect();
+                    return (format!("{o} at {which} helix={}", ps.join(",")), "fail");
+                }
+            }
+            ("holds".to_string(), "track")
+        }
+    }
+}
+
+/// relkt: the point set is the cluster (hook Cluster::verif_from_points)
+fn oracle_track(pts: Vec<P3>) -> (String, &'static str) {
+    let r = catch(move || check_cluster(&points_of(&pts)));
+    r.unwrap_or_else(|| ("fails panic".to_string(), "panic"))
+}
+
+/// relkc: hook-free: the clusters are those cluster_spacepoints finds in the point set
+fn oracle_clusters(pts: Vec<P3>) -> (String, String) {
+    let r = catch(move || {
+        let res = cluster_spacepoints(points_of(&pts));
+        let mut classes: Vec<&'static str> = Vec::new();
+        for c in res.clusters {
+            let sps: Vec<SpacePoint> = c.iter().copied().collect();
+            let (o, class) = check_cluster(&sps);
+            if o != "holds" {
+                return (o, "fail".to_string());
+            }
+            classes.push(class);
+        }
+        classes.sort();
+        classes.dedup();
+        ("holds".to_string(), if classes.is_empty() { "no-cluster".to_string() } else { classes.join("+") })
+    });
+    r.unwrap_or_else(|| ("fails panic".to_string(), "panic".to_string()))
+}
+
+/// the t reported with every track of the primary vertex (public API)
+fn oracle_vertex(trs: Vec<[f64; 8]>) -> (String, &'static str) {
+    let r = catch(move || {
+        let tracks: Vec<Track> = trs
+            .iter()
+            .map(|p| Track::verif_from_params([p[0], p[1], p[2], p[3], p[4], p[5]], p[6], p[7]))
+            .collect();
+        let res = find_vertices(tracks);
+        match res.primary {
+            None => ("holds".to_string(), "no-primary"),
+            Some(v) => {
+                let (x, y, z) = (v.position.x, v.position.y, v.position.z);
+                let p = SpacePoint { r: x.hypot(y), phi: y.atan2(x), z };
+                for (tr, t) in &v.tracks {
+                    if !in_domain(tr.verif_params()) {
+                        continue;
+                    }
+                    let o = oracle_t(tr.verif_params(), p, *t);
+                    if o != "holds" {
+                        return (o, "fail");
+                    }
+                }
+                ("holds".to_string(), "primary")
+            }
+        }
+    });
+    r.unwrap_or_else(|| ("fails panic".to_string(), "panic"))
+}
+
+pub fn observe_line(line: &str) -> Option<String> {
+    let f: Vec<&str> = line.split(' ').collect();
+    if f[0] == "kt" && f.len() == 13 {
+        let tol = unbits(f[1])?;
+        let iters: usize = f[2].parse().ok()?;
+        let v: Vec<f64> = f[3..].iter().map(|s| unbits(s)).collect::<Option<Vec<_>>>()?;
+        return Some(observe_kt(
+            tol,
+            iters,
+            [v[0], v[1], v[2], v[3], v[4], v[5]],
+            [v[6], v[7], v[8]],
+            v[9],
+        ));
+    }
+    if (f[0] == "relk" || f[0].starts_with("relkf-")) && f.len() == 10 {
+        let v: Vec<f64> = f[1..].iter().map(|s| unbits(s)).collect::<Option<Vec<_>>>()?;
+        return Some(oracle([v[0], v[1], v[2], v[3], v[4], v[5]], [v[6], v[7], v[8]]));
+    }
+    if f[0] == "relkt" || f[0] == "relkc" {
+        let n: usize = f.get(1)?.parse().ok()?;
+        if f.len() != 2 + 3 * n {
+            return None;
+        }
+        let v = parse_floats(&f[2..])?;
+        let pts: Vec<P3> = v.chunks(3).map(|c| [c[0], c[1], c[2]]).collect();
+        return Some(if f[0] == "relkt" { oracle_track(pts).0 } else { oracle_clusters(pts).0 });
+    }
+    if f[0] == "relkv" {
+        let n: usize = f.get(1)?.parse().ok()?;
+        if f.len() != 2 + 8 * n {
+            return None;
+        }
+        let v = parse_floats(&f[2..])?;
+        return Some(oracle_vertex(v.chunks(8).map(|c| [c[0], c[1], c[2], c[3], c[4], c[5], c[6], c[7]]).collect()).0);
+    }
     None
+}
+
+// ------------------------------------------------------------------------------------------------
+// generators
+// ------------------------------------------------------------------------------------------------
+pub fn unit(r: &mut Rng) -> f64 {
+    (r.next() >> 11) as f64 / (1u64 << 53) as f64
+}
+pub fn uniform(r: &mut Rng, lo: f64, hi: f64) -> f64 {
+    lo + (hi - lo) * unit(r)
+}
+pub fn log_uniform(r: &mut Rng, lo: f64, hi: f64) -> f64 {
+    (lo.ln() + (hi.ln() - lo.ln()) * unit(r)).exp().clamp(lo, hi)
+}
+pub fn sign(r: &mut Rng) -> f64 {
+    if r.chance(1, 2) {
+        1.0
+    } else {
+        -1.0
+    }
+}
+fn next_up(x: f64) -> f64 {
+    f64::from_bits(x.to_bits() + 1)
+}
+fn next_down(x: f64) -> f64 {
+    f64::from_bits(x.to_bits() - 1)
+}
+
+/// pitch classes of the quantifier: 0, +-subnormal, +-1e-17..+-1e2, the guard constant EPSILON +-1 ulp
+pub fn pitch(r: &mut Rng) -> (f64, &'static str) {
+    match r.below(16) {
+        0 => (0.0, "h0"),
+        1 => (
+            sign(r) * r.pick(&[5e-324, 1e-323, 1e-310, 1.1125369292536007e-308, 2.225073858507201e-308]),
+            "hsub",
+        ),
+        2 => (
+            sign(r)
+                * r.pick(&[
+                    f64::EPSILON,
+                    next_up(f64::EPSILON),
+                    next_down(f64::EPSILON),
+                    1e-17,
+                    1e2,
+                    2.0 * f64::EPSILON,
+                    0.5 * f64::EPSILON,
+                ]),
+            "hguard",
+        ),
+        3 | 4 => (sign(r) * log_uniform(r, 1e-17, 3e-16), "h1e-17..3e-16"),
+        5 | 6 => (sign(r) * log_uniform(r, 2e-16, 1e-8), "h2e-16..1e-8"),
+        7 | 8 => (sign(r) * log_uniform(r, 1e-8, 1e-2), "h1e-8..1e-2"),
+        9..=12 => (sign(r) * log_uniform(r, 1e-2, 3.0), "h1e-2..3"),
+        _ => (sign(r) * log_uniform(r, 3.0, 1e2), "h3..1e2"),
+    }
+}
+
+pub fn phase(r: &mut Rng) -> f64 {
+    match r.below(20) {
+        0 => r.pick(&[0.0, PI, -PI, PI / 2.0, -PI / 2.0, -0.0]),
+        1 | 2 | 3 => uniform(r, -4.0 * PI, 4.0 * PI),
+        _ => uniform(r, -PI, PI),
+    }
+}
+
+pub fn helix(r: &mut Rng) -> ([f64; 6], &'static str) {
+    let c = |r: &mut Rng| -> f64 {
+        match r.below(12) {
+            0 => r.pick(&[0.0, 0.0, -0.0]),
+            1 => r.pick(&[3.0, -3.0]),
+            2 => sign(r) * log_uniform(r, 1e-12, 1e-2),
+            _ => uniform(r, -3.0, 3.0),
+        }
+    };
+    let rad = match r.below(10) {
+        0 => r.pick(&[0.03, 5.0]),
+        1 | 2 => uniform(r, 0.03, 5.0),
+        _ => log_uniform(r, 0.03, 5.0),
+    };
+    let (h, hl) = pitch(r);
+    ([c(r), c(r), c(r), rad, phase(r), h], hl)
+}
+
+/// cylindrical coordinates (r, phi, z) of a cartesian point
+fn cyl(x: f64, y: f64, z: f64) -> [f64; 3] {
+    [x.hypot(y), y.atan2(x), z]
+}
+
+/// a point of the quantifier: anywhere in the drift volume, or within 1 cm of the helix
+pub fn point(r: &mut Rng, hp: [f64; 6]) -> ([f64; 3], &'static str) {
+    match r.below(11) {
+        10 => {
+            // special values: signed zeros, subnormals, axis-aligned directions (sign-of-zero and exact-tie paths)
+            let rr = r.pick(&[0.0, -0.0, 0.05, 0.15, 0.25, 5e-324, hp[3]]);
+            let ph = r.pick(&[0.0, -0.0, 5e-324, -5e-324, PI, -PI, PI / 2.0, -PI / 2.0, hp[4], -hp[4]]);
+            let z = r.pick(&[0.0, -0.0, hp[2], hp[2] + hp[5], hp[2] - 0.5 * hp[5], 5e-324, 1.3, -1.3]);
+            ([rr, ph, z], "special")
+        }
+        0..=3 => {
+            let rr = match r.below(8) {
+                0 => r.pick(&[0.05, 0.25, 0.109, 0.182]),
+                _ => uniform(r, 0.05, 0.25),
+            };
+            let z = match r.below(8) {
+                0 => r.pick(&[0.0, 1.3, -1.3, hp[2]]),
+                _ => uniform(r, -1.3, 1.3),
+            };
+            ([rr, uniform(r, -PI, PI), z], "volume")
+        }
+        4 => {
+            // same z as the helix centre z0 up to a few pitches: the revolution is next to the point
+            let rr = uniform(r, 0.05, 0.25);
+            let k = r.pick(&[0.0, 0.25, -0.25, 0.5, -0.5, 0.49, -0.49, 1.0, -1.0, 2.5]);
+            ([rr, uniform(r, -PI, PI), hp[2] + k * hp[5]], "volume-z0")
+        }
+        _ => {
+            // within 1 cm of the helix
+            let t0 = match r.below(8) {
+                0 => r.pick(&[0.0, PI, -PI, 3.0, -3.0, 3.14, -3.14]),
+                _ => uniform(r, -PI, PI),
+            };
+            let a = at(hp, t0);
+            let scale = match r.below(6) {
+                0 => 0.0,
+                1 => log_uniform(r, 1e-18, 1e-9),
+                _ => log_uniform(r, 1e-9, 1e-2),
+            };
+            // random direction
+            let (ux, uy, uz) = (uniform(r, -1.0, 1.0), uniform(r, -1.0, 1.0), uniform(r, -1.0, 1.0));
+            let nn = (ux * ux + uy * uy + uz * uz).sqrt().max(1e-300);
+            let mut dz = scale * uz / nn;
+            match r.below(6) {
+                0 => dz = 0.0,
+                1 => dz = hp[5] * r.pick(&[0.5, -0.5, 0.01, -0.01, 1.0, -1.0]),
+                _ => {}
+            }
+            if dz.abs() > 0.01 {
+                dz = 0.0;
+            }
+            (cyl(a[0] + scale * ux / nn, a[1] + scale * uy / nn, a[2] + dz), "near-helix")
+        }
+    }
+}
+
+/// helices with eccentricity e = 4 pi^2 rho r / h^2 close to 1 and M close to 0 (slowest Newton convergence)
+fn critical(r: &mut Rng) -> ([f64; 6], [f64; 3]) {
+    let (mut hp, _) = helix(r);
+    let rad = hp[3];
+    // point at distance rho from the axis, direction psi
+    let rho = log_uniform(r, 0.01, 2.0);
+    let psi = uniform(r, -PI, PI);
+    let f = 1.0
+        + match r.below(4) {
+            0 => 0.0,
+            1 => sign(r) * log_uniform(r, 1e-16, 1e-6),
+            _ => sign(r) * log_uniform(r, 1e-6, 0.5),
+        };
+    hp[5] = sign(r) * 2.0 * PI * (rad * rho).sqrt() * f;
+    // choose z so that temp = phi0 + 2 pi (z - z0)/h - delta = pi + m  (M = -m small)
+    let m = match r.below(4) {
+        0 => 0.0,
+        1 => sign(r) * log_uniform(r, 1e-16, 1e-6),
+        _ => sign(r) * log_uniform(r, 1e-6, 1.0),
+    };
+    let z = hp[2] + (PI + m - hp[4] + psi) * hp[5] / (2.0 * PI);
+    (hp, cyl(hp[0] + rho * psi.cos(), hp[1] + rho * psi.sin(), z))
+}
+
+fn case_kt(tol: f64, iters: usize, hp: [f64; 6], sp: [f64; 3], tq: f64) -> String {
+    let mut s = format!("kt {} {}", bits(tol), iters);
+    for x in hp.iter().chain(sp.iter()) {
+        s.push(' ');
+        s.push_str(&bits(*x));
+    }
+    s.push(' ');
+    s.push_str(&bits(tq));
+    s
+}
+fn case_rel(tag: &str, hp: [f64; 6], sp: [f64; 3]) -> String {
+    let mut s = tag.to_string();
+    for x in hp.iter().chain(sp.iter()) {
+        s.push(' ');
+        s.push_str(&bits(*x));
+    }
+    s
+}
+
+pub fn run(tier: &str, seed: u64, s: &mut Sink) {
+    let mut r = Rng::new(seed ^ 0xC16);
+    let (n_kt, n_rel) = if tier == "thorough" { (400_000, 60_000) } else { (16_000, 2_500) };
+    for i in 0..n_kt {
+        let (hp, sp, label) = if i % 10 == 9 {
+            let (hp, sp) = critical(&mut r);
+            (hp, sp, "critical-e~1".to_string())
+        } else {
+            let (hp, hl) = helix(&mut r);
+            let (sp, pl) = point(&mut r, hp);
+            (hp, sp, format!("{hl}/{pl}"))
+        };
+        // the library's tolerance and iteration count, and a stream with other values (model parameters)
+        let (tol, iters) = if r.chance(1, 8) {
+            (
+                r.pick(&[0.0, f64::EPSILON, -f64::EPSILON, 1e-12, 1e-3, 1.0]),
+                r.pick(&[0usize, 1, 2, 5, 19, 20, 21, 50]),
+            )
+        } else {
+            (f64::EPSILON, 20)
+        };
+        let tq = if r.chance(1, 8) { r.pick(&[0.0, PI, -PI, -0.0]) } else { uniform(&mut r, -PI, PI) };
+        let obs = observe_kt(tol, iters, hp, sp, tq);
+        let nontrivial = hp[5].abs() >= f64::EPSILON;
+        let label = if tol == f64::EPSILON && iters == 20 { label } else { format!("{label}/tol-iters-varied") };
+        s.put(&case_kt(tol, iters, hp, sp, tq), &obs, &label, nontrivial);
+    }
+    for i in 0..n_rel {
+        let (hp, sp, label) = if i % 5 == 4 {
+            let (hp, sp) = critical(&mut r);
+            (hp, sp, "rel:critical-e~1".to_string())
+        } else {
+            let (hp, hl) = helix(&mut r);
+            let (sp, pl) = point(&mut r, hp);
+            (hp, sp, format!("rel:{hl}/{pl}"))
+        };
+        let obs = oracle(hp, sp);
+        s.put(&case_rel("relk", hp, sp), &obs, &label, hp[5].abs() >= f64::EPSILON);
+    }
+    // the same property where the library reports t through its public API
+    let (n_trk, n_vtx) = if tier == "thorough" { (3000, 3000) } else { (250, 300) };
+    for _ in 0..n_trk {
+        let n = r.range(3, 40) as usize;
+        let (mut pts, fam) = family(&mut r, n);
+        if pts.len() < 3 {
+            continue;
+        }
+        pts.truncate(60);
+        let (obs, class) = oracle_track(pts.clone());
+        s.put(&case_points("relkt", &pts), &obs, &format!("rel-track:{fam}:{class}"), class == "track");
+    }
+    for _ in 0..n_trk / 2 {
+        let n = r.range(13, if tier == "thorough" { 400 } else { 120 }) as usize;
+        let (pts, fam) = family(&mut r, n);
+        let (obs, class) = oracle_clusters(pts.clone());
+        s.put(&case_points("relkc", &pts), &obs, &format!("rel-clusters:{fam}:{class}"), class.contains("track"));
+    }
+    for _ in 0..n_vtx {
+        let k = r.range(2, 8) as usize;
+        let shared_z = uniform(&mut r, -1.0, 1.0);
+        let mut trs: Vec<[f64; 8]> = Vec::new();
+        for _ in 0..k {
+            let mut t = track_params(&mut r);
+            let zb = alpha_g_physics::reconstruction::verif_helix_closest_to_beamline([t[0], t[1], t[2], t[3], t[4], t[5]])
+                .z
+                .get::<meter>();
+            t[2] = (t[2] - zb + shared_z + uniform(&mut r, -0.02, 0.02)).clamp(-3.0, 3.0);
+            trs.push(t);
+        }
+        let (obs, class) = oracle_vertex(trs.clone());
+        let mut c = format!("relkv {}", trs.len());
+        for t in &trs {
+            for x in t {
+                c.push(' ');
+                c.push_str(&bits(*x));
+            }
+        }
+        s.put(&c, &obs, &format!("rel-vertex:{class}"), class == "primary");
+    }
 }
